@@ -1,4 +1,5 @@
 """C08 — results do not depend on runtime, executor variant or completion order."""
+import json
 import zlib
 
 from hypothesis import given, seed, strategies as st
@@ -195,6 +196,11 @@ def cases(draw, op_kind=None, null_hazards=("argument",)):
     mode = draw(st.sampled_from(["code", "sdl"]))
     eff = H.sdl_view(spec) if mode == "sdl" else spec
     req = draw(GD.requests(eff, op_kind=op_kind, multi_op=False, null_hazards=null_hazards))
+    if req["kind"] == "mutation" and draw(st.integers(0, 3)) == 0:
+        # one object type as query AND mutation root (June 2018 does not ask for distinct root types; py_gql accepts it): what
+        # makes an operation a mutation is its keyword, not the type it starts from
+        spec = GS.Spec(json.loads(json.dumps(spec)))
+        spec["query"] = spec["mutation"]
     world = {"salt": draw(st.integers(0, 10 ** 6)), "p_err": draw(st.sampled_from([0, 0, 7, 11, 6])),
              "p_null": draw(st.sampled_from([0, 5, 9])), "p_null_item": draw(st.sampled_from([0, 4]))}
     nboom = draw(st.sampled_from([0, 0, 0, 1, 1, 2]))
